@@ -28,7 +28,18 @@ ViewOf(PP, id, knd) ==
      capacity |-> IF a.ch = 0 THEN 0 ELSE Len(b.cells) \div a.ch,
      ch |-> a.ch, bd |-> TypeBits(knd), data |-> b.cells]
 
-Empty == NewPool([ch |-> 0, l |-> 0, k |-> 0], {})
+Empty == [alloc |-> [ch |-> 0, l |-> 0, k |-> 0], bufs |-> <<>>, free |-> {}, held |-> <<>>]
+
+(* Trace-local state economy: a pooled buffer is by definition fresh (PutF resets it), so the validator keeps *)
+(* cell contents only for buffers that are checked out and keeps `free' as a SET of identities.  Long          *)
+(* concurrent runs see thousands of identities (under the race detector sync.Pool drops a quarter of the puts); *)
+(* without this the state grows with every identity ever seen and validation becomes quadratic.               *)
+Restrict(f, S) == [x \in S |-> f[x]]
+TGetReuse(PP, g, id) == [PP EXCEPT !.bufs = (id :> Fresh(PP.alloc)) @@ @, !.free = @ \ {id}, !.held[g] = @ \cup {id}]
+TPut(PP, g, id) == [PP EXCEPT !.bufs = Restrict(@, DOMAIN @ \ {id}), !.free = @ \cup {id}, !.held[g] = @ \ {id}]
+TForget(PP, g, id) == [PP EXCEPT !.bufs = Restrict(@, DOMAIN @ \ {id}), !.held[g] = @ \ {id}]
+TNewPool(alloc, procs) == [alloc |-> alloc, bufs |-> <<>>, free |-> {}, held |-> [g \in procs |-> {}]]
+Seen(PP, id) == id \in PP.free \/ \E g \in DOMAIN PP.held : id \in PP.held[g]
 
 Bad(e, cls, exp, got) ==
     /\ PrintT(<<"MISMATCH", l, tid, e.op, cls, exp, got, FALSE>>)
@@ -53,10 +64,10 @@ CountAlloc(e) == IF OverBudget(e)
 Step(e) ==
     CASE e.op = "Get" ->
            IF e.g \notin DOMAIN P.held THEN Bad(e, "args", "-", "-")
-           ELSE IF e.reused = 1 /\ e.id \notin Range(P.free)
+           ELSE IF e.reused = 1 /\ e.id \notin P.free
            THEN Bad(e, "held", "pooled", IF \E g \in DOMAIN P.held : e.id \in P.held[g] THEN "held" ELSE "unknown")
-           ELSE IF e.reused = 0 /\ e.id \in DOMAIN P.bufs THEN Bad(e, "args", "-", "-")
-           ELSE LET PP == IF e.reused = 1 THEN GetReuseF(P, e.g, e.id) ELSE GetNewF(P, e.g, e.id) IN
+           ELSE IF e.reused = 0 /\ Seen(P, e.id) THEN Bad(e, "args", "-", "-")
+           ELSE LET PP == IF e.reused = 1 THEN TGetReuse(P, e.g, e.id) ELSE GetNewF(P, e.g, e.id) IN
                 IF ViewOf(PP, e.id, kind) # e.view
                 THEN /\ PrintT(<<"EXPECTED", l, ViewOf(PP, e.id, kind)>>)
                      /\ Bad(e, "stale", "fresh", IF e.reused = 1 THEN "reused" ELSE "new")
@@ -74,10 +85,10 @@ Step(e) ==
       [] e.op = "Put" ->
            IF e.g \notin DOMAIN P.held \/ e.id \notin P.held[e.g] THEN Bad(e, "args", "-", "-")
            ELSE IF e.res # "ok" THEN Bad(e, "res", "ok", e.res)
-           ELSE Good(PutF(P, e.g, e.id)) /\ UNCHANGED nreused /\ CountAlloc(e) /\ ncyc' = ncyc + 1
+           ELSE Good(TPut(P, e.g, e.id)) /\ UNCHANGED nreused /\ CountAlloc(e) /\ ncyc' = ncyc + 1
       [] e.op = "Forget" ->
            IF e.g \notin DOMAIN P.held \/ e.id \notin P.held[e.g] THEN Bad(e, "args", "-", "-")
-           ELSE Good(ForgetF(P, e.g, e.id)) /\ UNCHANGED <<nreused, nbad, ncyc>>
+           ELSE Good(TForget(P, e.g, e.id)) /\ UNCHANGED <<nreused, nbad, ncyc>>
       [] e.op = "PutForeign" ->        \* C15: wrong total capacity must panic and modify nothing
            LET exp == IF e.cap = CapOf(P.alloc) THEN "ok" ELSE "panic" IN
            IF e.res # exp THEN Bad(e, "res", exp, e.res)
@@ -89,7 +100,7 @@ Next ==
     /\ l <= Len(Trace) /\ l' = l + 1
     /\ LET e == Trace[l] IN
        IF e.op = "NewPool"
-       THEN /\ P' = NewPool([ch |-> e.ch, l |-> e.l, k |-> e.k], 1..e.procs)
+       THEN /\ P' = TNewPool([ch |-> e.ch, l |-> e.l, k |-> e.k], 1..e.procs)
             /\ kind' = e.kind /\ tid' = e.tid /\ dead' = FALSE /\ ncyc' = 0 /\ UNCHANGED <<nbad, njudged, nreused>>
        ELSE IF dead THEN UNCHANGED <<P, tid, dead, nbad, njudged, nreused, kind, ncyc>>
        ELSE Step(e)
@@ -99,6 +110,6 @@ Spec == Init /\ [][Next]_tvars
 Done == (l = Len(Trace) + 1) => PrintT(<<"SUMMARY", Len(Trace), nbad, nreused, njudged>>)
 \* Exclusive(P) is enforced per event by the guards of Get/Use/Put (an id is taken from `free' or is new);
 \* the quadratic predicate itself is checked on the exhaustive model only.
-Safe == dead \/ FreeAreFresh(P)
+Safe == dead \/ (\A g \in DOMAIN P.held : P.held[g] \cap P.free = {})
 AllConsumed == TLCGet("stats").diameter - 1 = Len(Trace)
 =============================================================================
